@@ -55,13 +55,26 @@ def build_harness():
     try:
         adds = " ".join("-add internal/verifmain/%s=%s" % (os.path.basename(f), f) for f in sorted(glob.glob(os.path.join(VERIF, "rt", "harness", "*.go"))))
         adds += " " + " ".join("-add %s=%s" % (os.path.relpath(f, os.path.join(VERIF, "rt", "inpkg")), f) for f in sorted(glob.glob(os.path.join(VERIF, "rt", "inpkg", "**", "*.go"), recursive=True)))
-        r = sh("%s -repo %s -out %s %s" % (vin, REPO, tmp, adds), env=GOENV)
-        if r.returncode != 0:
-            return None, d, "instrumentation failed (exit %d):\n%s%s" % (r.returncode, r.stdout, r.stderr)
-        os.makedirs(d, exist_ok=True)
-        r2 = sh("cd %s && go1.26.8 build -overlay %s/overlay.json -o %s ./internal/verifmain" % (REPO, tmp, binp), env=GOENV)
-        if r2.returncode != 0:
-            return None, d, "instrumented build failed:\n" + r2.stderr[-3000:]
+        nomem = ""
+        for memflag in ("", "-mem=false"):
+            r = sh("%s %s -repo %s -out %s %s" % (vin, memflag, REPO, tmp, adds), env=GOENV)
+            if r.returncode != 0:
+                err = "instrumentation failed (exit %d):\n%s%s" % (r.returncode, r.stdout, r.stderr)
+            else:
+                os.makedirs(d, exist_ok=True)
+                r2 = sh("cd %s && go1.26.8 build -overlay %s/overlay.json -o %s ./internal/verifmain" % (REPO, tmp, binp), env=GOENV)
+                if r2.returncode == 0:
+                    err = ""
+                    break
+                err = "instrumented build failed:\n" + r2.stderr[-3000:]
+            # the wrappers for plain memory accesses (C19) may not fit a changed tree: every other
+            # check still needs a harness, so try again without them
+            if memflag == "":
+                nomem = err
+        if err:
+            return None, d, err
+        if nomem:
+            open(os.path.join(d, "nomem"), "w").write(nomem)
         # white-box container differential binary (in-package tests compiled as a program)
         shutil.copy(os.path.join(tmp, "sites.json"), os.path.join(d, "sites.json"))
         if os.path.exists(os.path.join(tmp, "facts.json")):
@@ -130,12 +143,12 @@ def forbidden_scan():
 
 # ---------------------------------------------------------------- running executions
 
-def run_family(binp, family, n, seed, props, shards=1, start=0, extra=None, quiet=False):
+def run_family(binp, family, n, seed, props, shards=1, start=0, extra=None, quiet=False, mem=False):
     """run n executions of a family through the driver (all shards in parallel). returns dict with results"""
     res = {"runs": 0, "bad": [], "rejected": [], "hashes": set(), "nontrivial": set(), "livelocks": [], "errors": []}
     tmpd = tempfile.mkdtemp(prefix="vrun-")
     try:
-        procs = [_spawn(binp, family, n, seed, props, sh_i, shards, start, quiet, tmpd) for sh_i in range(shards)]
+        procs = [_spawn(binp, family, n, seed, props, sh_i, shards, start, quiet, tmpd, mem) for sh_i in range(shards)]
         for sh_i in range(shards):
             p1, p2, outp = procs[sh_i]
             while True:
@@ -144,7 +157,7 @@ def run_family(binp, family, n, seed, props, shards=1, start=0, extra=None, quie
                 last = _parse(out, family, res)
                 if p1.returncode == 3 and last is not None:
                     res["livelocks"].append(last)
-                    p1, p2, outp = _spawn(binp, family, n, seed, props, sh_i, shards, last + 1, quiet, tmpd)
+                    p1, p2, outp = _spawn(binp, family, n, seed, props, sh_i, shards, last + 1, quiet, tmpd, mem)
                     continue
                 if p1.returncode not in (0, 3):
                     res["errors"].append("harness exit %s in family %s shard %d" % (p1.returncode, family, sh_i))
@@ -154,10 +167,12 @@ def run_family(binp, family, n, seed, props, shards=1, start=0, extra=None, quie
     return res
 
 
-def _spawn(binp, family, n, seed, props, shard, shards, start, quiet, tmpd):
+def _spawn(binp, family, n, seed, props, shard, shards, start, quiet, tmpd, mem=False):
     cmd = [binp, "-family", family, "-n", str(n), "-seed", str(seed), "-shard", str(shard), "-shards", str(shards), "-start", str(start)]
     if quiet:
         cmd.append("-quiet")
+    if mem:
+        cmd.append("-mem")
     pre = lambda: __import__("resource").setrlimit(__import__("resource").RLIMIT_AS, (16 << 30, 16 << 30))
     outp = os.path.join(tmpd, "out-%d-%d.txt" % (shard, start))
     p1 = subprocess.Popen(cmd, stdout=subprocess.PIPE, stderr=subprocess.DEVNULL, preexec_fn=pre)
@@ -205,12 +220,12 @@ def extract_replay(binp, family, idx, seed):
     return prog, es, sched
 
 
-def replay_file(binp, path, props, show=False):
-    r1 = subprocess.run([binp, "-replay", path], capture_output=True, text=True)
+def replay_file(binp, path, props, show=False, mem=False):
+    r1 = subprocess.run([binp, "-replay", path] + (["-mem"] if mem else []), capture_output=True, text=True)
     r2 = subprocess.run([DRIVER] + props, input=r1.stdout, capture_output=True, text=True)
     if show:
         for l in r1.stdout.splitlines():
-            if not l.startswith("E ") and not l.startswith("S "):
+            if not l.startswith("E ") and not l.startswith("S ") and not l.startswith("M "):
                 print(l)
         print(r2.stdout)
     bad = [l for l in r2.stdout.splitlines() if l.startswith("V ") or l.startswith("M ")]
@@ -262,6 +277,24 @@ def run_check(pid, tier, seed):
             gen_ok = False
             violations.append(("tie", "fact extraction failed: " + (r.stderr.strip().splitlines() or ["?"])[-1], None, r.stderr))
 
+    if binp is not None and cfg.get("mem") and os.path.exists(os.path.join(hdir, "nomem")):
+        violations.append(("tie", "the wrappers for plain memory accesses do not compile on this tree (the race check cannot observe it)", None, open(os.path.join(hdir, "nomem")).read()))
+    site_tab = []
+    if binp is not None and cfg.get("mem"):
+        try:
+            site_tab = json.load(open(os.path.join(hdir, "sites.json")))
+        except Exception:
+            site_tab = []
+
+    def name_sites(msg):
+        def rep(m):
+            i = int(m.group(1))
+            if 0 <= i < len(site_tab):
+                st = site_tab[i]
+                return "%s %s in %s [%s]" % ("write of" if st.get("op") == "w" else "read of", st.get("recv"), st.get("func"), st.get("file", ""))
+            return m.group(0)
+        return re.sub(r"site (\d+)", rep, msg)
+
     # 2. lean build + audit
     theorems = cfg.get("theorems", [])
     modules = cfg.get("modules", [])
@@ -301,7 +334,7 @@ def run_check(pid, tier, seed):
     if binp is not None and os.path.exists(DRIVER):
         for fam, weight in fam_cfg:
             n = max(10, int(scale["n"] * weight))
-            r = run_family(binp, fam, n, seed, [pid], shards=scale["shards"])
+            r = run_family(binp, fam, n, seed, [pid], shards=scale["shards"], mem=bool(cfg.get("mem")))
             per_family[fam] = {"executions": r["runs"], "violating": len({(b[0], b[1]) for b in r["bad"]}), "model_rejected": len(r["rejected"]), "livelocks": len(r["livelocks"])}
             for k in ("bad", "rejected", "livelocks", "errors"):
                 total[k] += [(fam, x) if k == "livelocks" else x for x in r[k]]
@@ -320,12 +353,32 @@ def run_check(pid, tier, seed):
     elif binp is not None:
         violations.append(("tie", "Lean driver executable missing (setup not run?)", None, ""))
 
+    # 4b. corpus: replays of past failures (of the pinned tree and of later findings) run on every check
+    corpus_run = 0
+    if binp is not None and os.path.exists(DRIVER):
+        for cf in sorted(glob.glob(os.path.join(VERIF, "corpus", "*", pid + "-*.json"))):
+            try:
+                if "program" not in json.load(open(cf)):
+                    continue
+            except Exception:
+                continue
+            bad, _ = replay_file(binp, cf, [pid], mem=bool(cfg.get("mem")))
+            corpus_run += 1
+            for l in bad:
+                if l.startswith("V "):
+                    _, idx, prop, msg = l.split(" ", 3)
+                    if prop == pid and not match_known(known, pid, msg):
+                        violations.append(("predicate", "corpus replay: " + (name_sites(msg) if site_tab else msg), cf, ""))
+                        break
+
     # triage
     known_hits = {}
     seen_sig = set()
     for fam, idx, prop, msg in total["bad"]:
         if prop != pid:
             continue
+        if site_tab:
+            msg = name_sites(msg)
         k = match_known(known, pid, msg)
         if k:
             known_hits.setdefault(k["id"], (k, 0))
@@ -368,7 +421,7 @@ def run_check(pid, tier, seed):
     hashes = total["hashes"]
     samples = sample_programs(binp, fam_cfg, seed) if binp else []
     ev = {
-        "property_id": pid, "tier": tier, "seed": seed, "level": "proof" if obligations > 0 else "exploration",
+        "property_id": pid, "tier": tier, "seed": seed, "level": cfg.get("level") or ("proof" if obligations > 0 else "exploration"),
         "coverage": {
             "obligations": obligations, "discharged": discharged if lean_ok else 0,
             "checker_cmd": "cd /verif/lean && lake build %s && lake env lean <generated #print axioms file>" % " ".join(modules),
@@ -385,6 +438,7 @@ def run_check(pid, tier, seed):
             "known_findings_hit": {k: v[1] for k, v in known_hits.items()},
             "model_rejections": [list(map(str, r)) for r in total["rejected"][:5]],
             "livelocks": len(total["livelocks"]),
+            "corpus_replays": corpus_run,
         },
         "assumptions": cfg.get("assumptions", []) + CHECKS["assumptions"],
         "wall_s": round(time.time() - t0, 2),
@@ -453,7 +507,7 @@ def do_replay(pid, path):
     data = json.load(open(path))
     if "program" not in data:
         print(json.dumps(data, indent=1)); return 1
-    bad, _ = replay_file(binp, path, [pid], show=True)
+    bad, _ = replay_file(binp, path, [pid], show=True, mem=bool(CHECKS["properties"].get(pid, {}).get("mem")))
     if bad:
         print("VIOLATION property=%s replay=%s" % (pid, path)); return 1
     print("replay: no violation of %s on the current tree" % pid)
